@@ -246,9 +246,12 @@ def id_allocation_rule(r, ctx):
     from_operands = [c for c in des if any(s[0] == "arg" and s[1] == 3 for s in mo.sources(c.args[0], stop_at_calls=False))]
     if not from_operands and any(s[0] == "call" and s[1].name in ("sum", "fold", "reduce") for s in src) and any(s[0] == "arg" and s[1] == 3 for s in src):
         # iterator form: operands.iter().map(|op| deserialize(op)).sum()
+        # (map(|op| decode(op)).sum(), or fold(base, |acc, op| acc + decode(op)): the operand is one of the closure's own parameters)
         for cb in rs.closures_of(mo.defpath):
-            from_operands += [c for c in cb.calls if c.name.startswith("deserialize_u64") and any(s[0] == "arg" and s[1] == 2 for s in cb.sources(c.args[0], stop_at_calls=False))]
-    adds = any(s[0] == "bin" and s[1] in ("Add", "AddWithOverflow", "AddUnchecked") for s in src) or any(s[0] == "call" and s[1].name in ("wrapping_add", "checked_add", "saturating_add", "sum") for s in src)
+            from_operands += [c for c in cb.calls if c.name.startswith("deserialize_u64") and any(s[0] == "arg" and s[1] >= 2 for s in cb.sources(c.args[0], stop_at_calls=False))]
+    adds_in_closure = any(rv[0] == "bin" and rv[1] in ("Add", "AddWithOverflow", "AddUnchecked") for cb in rs.closures_of(mo.defpath) for i, j, p_, rv, line in cb.assigns()) \
+        or any(c.name in ("wrapping_add", "checked_add", "saturating_add") for cb in rs.closures_of(mo.defpath) for c in cb.calls)
+    adds = (adds_in_closure and any(s[0] == "call" and s[1].name in ("fold", "reduce") for s in src)) or any(s[0] == "bin" and s[1] in ("Add", "AddWithOverflow", "AddUnchecked") for s in src) or any(s[0] == "call" and s[1].name in ("wrapping_add", "checked_add", "saturating_add", "sum") for s in src)
     r.check(bool(from_existing), "merge-operator/starts-from-the-stored-value", where(mo), "the result starts from the decoded existing value",
             "the merged counter does not depend on the stored value: the counter restarts and ids already handed out are reused")
     r.check(bool(from_operands) and adds, "merge-operator/adds-the-decoded-operands", outs[0].loc(), "every operand is decoded and added",
@@ -537,6 +540,15 @@ def in_variant(b, block, place, variant, gs=None):
             if has_place and has_var and (l == "true") == (m.group(1) == "eq"):
                 return True
     return False
+
+
+def in_execution_order(b, calls):
+    """Calls that lie on one path, in the order they execute (block numbers say nothing once a helper has been spliced in): sorted by how many of
+    the others reach them."""
+    cs = list(calls)
+    def rank(c):
+        return sum(1 for o in cs if o is not c and (b.dominates(o.block, c.block) and o.block != c.block or (o.block != c.block and b.reaches(o.block, {c.block}) and not b.reaches(c.block, {o.block}))))
+    return sorted(cs, key=lambda c: (rank(c), c.block))
 
 
 def callback_calls(crate, b):
